@@ -852,6 +852,7 @@ namespace
   }
 
 #include "h_prob_objects.inc" // NOLINT: class / instance / object-variable layer of the generator
+#include "h_prob_fields.inc"  // NOLINT: layer L1b, typed fields and access chains (C17)
 static bool g_expect_unsolvable = false; // set by generators that build problems known to have no solution
 #include "h_prob_timelines.inc"
 #include "h_prob_temporal.inc" // NOLINT: StateVariable / ReusableResource layer and the plan validators
@@ -927,20 +928,22 @@ static bool g_expect_unsolvable = false; // set by generators that build problem
     Gen g{t, o, p};
     std::string layer = o.get("layer", "L0");
     if (P == "C16" && layer != "evalp") layer = "eval";
-    if (P == "C17") layer = "L1";
+    if (P == "C17" && layer != "L1b") layer = "L1";
     if (((P == "C04" && layer != "L3d") || P == "C05" || (P == "C06" && layer != "L3b") || P == "C19")) layer = "L3";
-    if (P == "C03" && layer != "L2p") layer = "L2";
+    if (P == "C03" && layer != "L2p" && layer != "L2c") layer = "L2";
     p.planted = layer == "L3" ? true : (P == "C02" ? t.chance(1, 2) : t.chance(2, 3));
     Timelines tl;
     Rules rl;
     Shared sh;
     Temporal tmp;
+    Fields flds;
     std::vector<std::string> c03, c19;
     std::ostringstream xlog;
     g_c03_struct.clear();
     g_patoms.clear();
-    if (layer == "L2")
+    if (layer == "L2" || layer == "L2c")
     {
+      if (layer == "L2c") gen_cycle(g, rl); else
       gen_rules(g, rl);
 #ifdef BUILD_LISTENERS
       g_on_solver = [](ratio::solver &s) { g_rec = new Recorder(s); };
@@ -953,6 +956,10 @@ static bool g_expect_unsolvable = false; // set by generators that build problem
         check_structure(s);
 #endif
       };
+    }
+    else if (layer == "L1b")
+    {
+      gen_fields(g, flds);
     }
     else if (layer == "L3d")
     {
@@ -1055,7 +1062,7 @@ static bool g_expect_unsolvable = false; // set by generators that build problem
     log << "-- verdict: " << (out.verdict == SOLVED ? "solved" : out.verdict == UNSOLVABLE ? "unsolvable" : "rejected") << (out.error.empty() ? "" : " (" + out.error + ")") << "\n";
     if (out.verdict == SOLVED) log << "-- values: " << show_values(out) << "\n";
     log << xlog.str();
-    if (layer == "L2" && out.verdict == SOLVED)
+    if ((layer == "L2" || layer == "L2c") && out.verdict == SOLVED)
     {
       for (auto &a : g_patoms)
       {
@@ -1120,6 +1127,7 @@ static bool g_expect_unsolvable = false; // set by generators that build problem
       check_objects(p, out, c17);
       if (layer == "L3" || layer == "L3d") check_timelines(p, tl, out, c04, c05, c06, c01, r);
       if (g_expect_unsolvable) c04.push_back("a problem in which every alternative overlaps a pinned fact on its state variable was reported solved");
+      if (layer == "L1b") check_fields(flds, out, c17, r);
       if (layer == "L2p") check_shared(sh, out, c01, c03, r);
       if (layer == "L3b") check_temporal(tmp, g_plan, c01, c06, r);
     }
@@ -1181,7 +1189,7 @@ static bool g_expect_unsolvable = false; // set by generators that build problem
           c02.push_back("the problem was declared unsolvable (" + out.error + ") but an independent decision procedure finds a solution");
       }
     }
-    if (layer == "L1" || P == "C17") check_domains_after_read(p, out, c17);
+    if (layer == "L1" || layer == "L1b" || P == "C17") check_domains_after_read(p, out, c17);
     // C17 metamorphic oracle: a satisfiable problem (witness / Z3) that is declared unsolvable, while the same problem with
     // every field access through a multi-valued object variable written out per candidate instance is solved, isolates the
     // field access as the culprit ("field access through such a variable denotes the field of whichever instance is chosen")
@@ -1221,6 +1229,7 @@ static bool g_expect_unsolvable = false; // set by generators that build problem
     else if (P == "C01") r.nontrivial = out.verdict == SOLVED && (evaluated_mixed || p.feats.count("arithmetic disequality") || p.feats.count("disjunction statement") || !p.objvars.empty());
     else if (P == "C02") r.nontrivial = out.verdict == UNSOLVABLE || p.planted;
     else if (P == "C16") r.nontrivial = out.verdict == SOLVED && (!p.expect_path.empty() || p.feats.count("product with a non-constant factor") || p.feats.count("unary minus") || p.feats.count("division") || p.feats.count("boolean constant expression"));
+    else if (P == "C17" && layer == "L1b") { /* set by check_fields */ }
     else if (P == "C17") r.nontrivial = nontrivial_objects(p, out);
     else if (P == "C18") r.nontrivial = true;
     else if (P == "C03") { /* set by check_rules */ }
